@@ -424,6 +424,14 @@ func c06Send(cl *s3c.Client, cs c06Case, path string, query []s3c.KV, p []byte, 
 			if r.Httpcl == "larger" {
 				cl += cs.K2
 			}
+			if r.Httpcl == "chunked" {
+				// the encoded stream framed by Transfer-Encoding: chunked (no Content-Length):
+				// the declared decoded length is the only declared length there is
+				w.Del("Content-Length")
+				w.Set("Transfer-Encoding", "chunked")
+				w.TE = 1 + len(b)/3
+				return
+			}
 			w.Set("Content-Length", strconv.Itoa(cl))
 		}
 	} else {
